@@ -106,6 +106,11 @@ function nameCases(ctx) {
   // extra runtime script and scripts with awkward bodies (valid JS)
   out.push({ cls: 'scripts', files: [['p', '<wxs module="m" src="./s"/>{{m.f()}}']], scripts: [['s', 'exports.f = function(){ return "}" + `${1}` + /[}]/.source } // trailing comment'], ['t', '/* block */ var a = 1\n// line comment without newline at the end']] })
   out.push({ cls: 'scripts', files: [['p', '<wxs module="m">exports.f = 1 // comment</wxs><wxs module="n">/* c */</wxs><wxs module="o"></wxs>{{m.f}}']] })
+  // the documented extra runtime script ("valid JavaScript statements, ended by semicolon"), with and without scripts in the group
+  for (const extra of ['var extra=1;', 'var a={};', ';', 'if(1){};']) {
+    out.push({ cls: 'extra-runtime', detail: { extra }, files: [['p', '<a>{{b}}</a>']], extra_runtime: extra })
+    out.push({ cls: 'extra-runtime', detail: { extra }, files: [['p', '<wxs module="m">exports.f = 1</wxs><a>{{m.f}}</a>']], scripts: [['s', 'exports.f = 1']], extra_runtime: extra })
+  }
   return out
 }
 function attrEsc(s) { return s.replace(/&/g, '&amp;').replace(/"/g, '&quot;').replace(/\{\{/g, '&#123;{') }
@@ -149,7 +154,7 @@ export async function run(ctx) {
   const want = { gen: true, groups: true, wx: true, runtime: true, globals: true, all_scripts: true, deps: true }
   for (let i = 0; i < cases.length; i += 200) {
     const batch = cases.slice(i, i + 200)
-    const results = compileMany(batch.map((c) => ({ id: c.id, files: c.files, scripts: c.scripts || [], want })), want)
+    const results = compileMany(batch.map((c) => ({ id: c.id, files: c.files, scripts: c.scripts || [], want, ...(c.extra_runtime ? { extra_runtime: c.extra_runtime } : {}) })), want)
     for (const c of batch) {
       judge(ctx, c, results.get(c.id))
       report.shape(c.cls + '|' + (c.shape || JSON.stringify(c.detail || '')))
